@@ -217,4 +217,247 @@ theorem zh_time_of_day_words :
     (∀ w ∈ [[20940, 26216], [21322, 22812], [22812, 38388]], todOfText w = none ∧ tpParse w none ⟨⟨2020, 1, 31⟩, 0⟩ = .raises) := by
   decide
 
+/-! ## 明天下午三点到五点: a time range on a date (`merge_date_and_time_periods`) -/
+
+/-- the general shape, for any date TIMEX (also `XXXX-05-01`) and any pair of clock times: the date's TIMEX goes in front of
+both points, the duration is copied unchanged, and BOTH ends are put on the date's day — also when the end's clock time is
+not after the begin's. -/
+theorem zh_merge_date_period_shape (fd pd bt et : DateTime) (dx : Str) (l r : TR) (hl : l.ok) (hr : r.ok) :
+    ∃ ta tb rest, buildTimex l = 84 :: ta ∧ buildTimex r = 84 :: tb ∧ buildSpan l r = 80 :: 84 :: rest ∧
+      mergeDateAndTimePeriods fd pd dx (triple (buildTimex l) (buildTimex r) (buildSpan l r)) bt et =
+        .ok (triple (dx ++ buildTimex l) (dx ++ buildTimex r) (buildSpan l r))
+          (withTime fd.date (hourOf bt) (minuteOf bt) (secondOf bt)) (withTime fd.date (hourOf et) (minuteOf et) (secondOf et))
+          (withTime pd.date (hourOf bt) (minuteOf bt) (secondOf bt)) (withTime pd.date (hourOf et) (minuteOf et) (secondOf et)) := by
+  obtain ⟨ta, f1, e1, _, _, _, _, n1⟩ := buildTimex_shape l hl
+  obtain ⟨tb, f2, e2, _, _, _, _, n2⟩ := buildTimex_shape r hr
+  have e3 : buildSpan l r = 80 :: 84 :: (luisTimeSpan (spanSecs l r)).drop 2 := by
+    rw [buildSpan_eq l r hl hr]; simp [luisTimeSpan]
+  refine ⟨ta, tb, _, e1, e2, e3, ?_⟩
+  rw [e1, e2, e3]
+  exact mergeDTP_shape fd pd bt et dx ta tb _ n1 n2 (luisTimeSpan_rest_no_T _)
+
+/-- **明天下午三点到五点, for every date and every pair of clock times in order**: on a definite date `d` (TIMEX = `format_date d`,
+future = past = `d`) with begin clock time < end clock time, the result is `[d begin, d end]` (future = past) and the TIMEX
+`(dTbegin,dTend,PT…)` is a consistent triple for those values. -/
+theorem zh_merge_date_period_ok (d : Date) (hv : d.valid = true) (l r : TR) (hl : l.ok) (hr : r.ok) (hlt : secsOf l < secsOf r)
+    (fd pd bt et : DateTime) (hfd : fd.date = d) (hpd : pd.date = d) (hbt : bt.secs = secsOf l) (het : et.secs = secsOf r) :
+    mergeDateAndTimePeriods fd pd (formatDate d) (triple (buildTimex l) (buildTimex r) (buildSpan l r)) bt et =
+      .ok (triple (formatDate d ++ buildTimex l) (formatDate d ++ buildTimex r) (buildSpan l r))
+        ⟨d, secsOf l⟩ ⟨d, secsOf r⟩ ⟨d, secsOf l⟩ ⟨d, secsOf r⟩ ∧
+    tripleOK (triple (formatDate d ++ buildTimex l) (formatDate d ++ buildTimex r) (buildSpan l r))
+      (some (fmtDT ⟨d, secsOf l⟩)) (some (fmtDT ⟨d, secsOf r⟩)) = true := by
+  have ll := secsOf_lt l hl
+  have lr := secsOf_lt r hr
+  obtain ⟨ta, tb, rest, e1, e2, e3, hm⟩ := zh_merge_date_period_shape fd pd bt et (formatDate d) l r hl hr
+  have wb : withTime d (hourOf bt) (minuteOf bt) (secondOf bt) = ⟨d, secsOf l⟩ := by
+    rw [withTime_of d hv bt (by omega), hbt]
+  have we : withTime d (hourOf et) (minuteOf et) (secondOf et) = ⟨d, secsOf r⟩ := by
+    rw [withTime_of d hv et (by omega), het]
+  refine ⟨by rw [hm, hfd, hpd, wb, we], ?_⟩
+  obtain ⟨ta', f1, e1', t1, p1, l1, c1, _⟩ := buildTimex_shape l hl
+  obtain ⟨tb', f2, e2', t2, p2, l2, c2, _⟩ := buildTimex_shape r hr
+  have hs : spanSecs l r = secsOf r - secsOf l := by unfold spanSecs; omega
+  rw [buildSpan_eq l r hl hr, hs, e1', e2']
+  exact date_period_ok d hv ta' tb' f1 f2 (secsOf l) (secsOf r) lr t1 p1 l1 c1 t2 p2 l2 c2 hlt
+
+/-- **finding `zh-dtperiod-cross-midnight`** (witness, replayed on the implementation): 今天晚上8点到凌晨2点 asked on 2020-01-31 —
+the time range is `(T20,T02,PT6H)`, 20:00 to 02:00 of the NEXT day; pasted onto the one date it becomes
+`(2020-01-31T20,2020-01-31T02,PT6H)` with the end 18 hours BEFORE the begin; `tripleOK` rejects it. -/
+theorem zh_cross_midnight_witness :
+    mergeDateAndTimePeriods ⟨⟨2020, 1, 31⟩, 0⟩ ⟨⟨2020, 1, 31⟩, 0⟩ (Py.ofString "2020-01-31") (Py.ofString "(T20,T02,PT6H)")
+        ⟨⟨2020, 1, 31⟩, 72000⟩ ⟨⟨2020, 2, 1⟩, 7200⟩ =
+      .ok (Py.ofString "(2020-01-31T20,2020-01-31T02,PT6H)") ⟨⟨2020, 1, 31⟩, 72000⟩ ⟨⟨2020, 1, 31⟩, 7200⟩ ⟨⟨2020, 1, 31⟩, 72000⟩ ⟨⟨2020, 1, 31⟩, 7200⟩ ∧
+    tripleOK (Py.ofString "(2020-01-31T20,2020-01-31T02,PT6H)") (some (Py.ofString "2020-01-31 20:00:00"))
+      (some (Py.ofString "2020-01-31 02:00:00")) = false ∧
+    tripleOK (Py.ofString "(2020-01-31T20,2020-02-01T02,PT6H)") (some (Py.ofString "2020-01-31 20:00:00"))
+      (some (Py.ofString "2020-02-01 02:00:00")) = true := by
+  refine ⟨?_, ?_, ?_⟩ <;> decide +kernel
+
+/-- a part-of-day code (`TAF`: two pieces when split at `T`) is not a range TIMEX: no result from this function -/
+example : mergeDateAndTimePeriods ⟨⟨2020, 2, 1⟩, 0⟩ ⟨⟨2020, 2, 1⟩, 0⟩ (Py.ofString "2020-02-01") (Py.ofString "TAF")
+    ⟨⟨2020, 1, 31⟩, 43200⟩ ⟨⟨2020, 1, 31⟩, 57600⟩ = .noResult := by decide +kernel
+
+/-! ## two time points (`merge_two_time_points`) -/
+
+/-- both points carry a date, in order: the values are the two points, the TIMEX is a consistent triple (the Base
+statement `merge_both_ok`, for the Chinese code) -/
+theorem zh_merge_points_both_ok (R : DateTime) (t1 t2 : Str) (b e : DateTime) (hb : proper b) (he : proper e) (lc ra : Bool)
+    (hlt : val b < val e) :
+    mergeTwoTimePoints R .both b b t1 lc e e t2 ra = .ok (triple t1 t2 (luisSpan b e)) b e b e := by
+  have nlt : e.lt b = false := lt_false_of_val b e hb he (by omega)
+  have nlt2 : (⟨e.date, e.secs⟩ : DateTime).lt ⟨b.date, b.secs⟩ = false := nlt
+  unfold mergeTwoTimePoints midnightPlus
+  simp [nlt, hb.1, he.1]
+
+/-- **the side without a date is put on the REFERENCE's day** (the code's own TODO): 后天下午2点 5点 asked on 2020-01-31 — the begin
+is 2020-02-02 14:00, the end 5 o'clock lands on 2020-01-31 (+12 h because it is ambiguous and lies before the begin, +1 day
+because it still does): 2020-02-01 17:00, twenty-one hours BEFORE the begin, duration text `PT-21H`. (Not reached through
+the merged extractor for plain 到-ranges — those carry one date and one time range and go through
+`merge_date_and_time_periods` — hence a unit-level witness only.) -/
+theorem zh_merge_points_reference_day_witness :
+    mergeTwoTimePoints ⟨⟨2020, 1, 31⟩, 52200⟩ .beginHasDate ⟨⟨2020, 2, 2⟩, 50400⟩ ⟨⟨2020, 2, 2⟩, 50400⟩ (Py.ofString "2020-02-02T14") false
+        ⟨⟨2020, 1, 31⟩, 18000⟩ ⟨⟨2020, 1, 31⟩, 18000⟩ (Py.ofString "T05") true =
+      .ok (Py.ofString "(2020-02-02T14,2020-02-01T17,PT-21H)") ⟨⟨2020, 2, 2⟩, 50400⟩ ⟨⟨2020, 2, 1⟩, 61200⟩ ⟨⟨2020, 2, 2⟩, 50400⟩ ⟨⟨2020, 2, 1⟩, 61200⟩ := by
+  decide +kernel
+
+example : mergeTwoTimePoints ⟨⟨2020, 1, 31⟩, 52200⟩ .endHasDate ⟨⟨2020, 1, 31⟩, 50400⟩ ⟨⟨2020, 1, 31⟩, 50400⟩ (Py.ofString "T14") false
+    ⟨⟨2020, 2, 1⟩, 18000⟩ ⟨⟨2020, 2, 1⟩, 18000⟩ (Py.ofString "2020-02-01T05") false =
+    .ok (Py.ofString "(2020-01-31T14,2020-02-01T05,PT15H)") ⟨⟨2020, 1, 31⟩, 50400⟩ ⟨⟨2020, 2, 1⟩, 18000⟩ ⟨⟨2020, 1, 31⟩, 50400⟩ ⟨⟨2020, 2, 1⟩, 18000⟩ := by
+  decide +kernel
+
+/-! ## 今晚 / 明早 / 昨晚, 明天下午 (`parse_specific_time_of_day`) -/
+
+/-- `get_matched_time_range`, row by row: 今晚 / 明晚 / 昨晚 = 16–20 (TEV) on the day 0 / +1 / −1; 今早 今晨 / 明早 明晨 = 08–12 (TMO)
+on the day 0 / +1; any other word: none -/
+theorem zh_night_table :
+    nightRange [20170, 26202] = some (0, ⟨Py.ofString "TEV", 16, 20, 0⟩) ∧ nightRange [26126, 26202] = some (1, ⟨Py.ofString "TEV", 16, 20, 0⟩) ∧
+    nightRange [26152, 26202] = some (-1, ⟨Py.ofString "TEV", 16, 20, 0⟩) ∧
+    nightRange [20170, 26089] = some (0, ⟨Py.ofString "TMO", 8, 12, 0⟩) ∧ nightRange [20170, 26216] = some (0, ⟨Py.ofString "TMO", 8, 12, 0⟩) ∧
+    nightRange [26126, 26089] = some (1, ⟨Py.ofString "TMO", 8, 12, 0⟩) ∧ nightRange [26126, 26216] = some (1, ⟨Py.ofString "TMO", 8, 12, 0⟩) ∧
+    nightRange [26152, 26089] = none := by decide
+
+theorem nightRange_rows (w : Str) (k : Int) (v : TimeRange) (h : nightRange w = some (k, v)) :
+    (k = 0 ∨ k = 1 ∨ k = -1) ∧ ((v = ⟨[84, 69, 86], 16, 20, 0⟩) ∨ (v = ⟨[84, 77, 79], 8, 12, 0⟩)) := by
+  unfold nightRange at h
+  simp only at h
+  repeat' split at h
+  all_goals first
+    | (simp only [Option.some.injEq, Prod.mk.injEq] at h; obtain ⟨h1, h2⟩ := h; subst h1 h2; simp)
+    | simp at h
+
+/-- **今晚 / 明早 / 昨晚 …, for every reference**: the range lies on the day `reference + swift` (swift ∈ {−1, 0, +1}), begin <
+end on that same day (16:00–20:00 or 08:00–12:00), future = past, TIMEX = that day's date + the part-of-day code. -/
+theorem zh_specific_night_ok (R : DateTime) (hR : proper R) (w : Str) (k : Int) (v : TimeRange) (hw : nightRange w = some (k, v))
+    (t : Str) (fb fe pb pe : DateTime) (h : specificNight R w = .ok t fb fe pb pe) :
+    ∃ d : Date, d.valid = true ∧ (d.ord : Int) = R.date.ord + k ∧ t = formatDate d ++ v.timeStr ∧
+      fb = ⟨d, v.beginHour * 3600⟩ ∧ fe = ⟨d, v.endHour * 3600⟩ ∧ pb = fb ∧ pe = fe ∧ v.beginHour < v.endHour ∧ v.endHour < 24 := by
+  have rows := nightRange_rows w k v hw
+  unfold specificNight at h
+  simp only [hw] at h
+  cases hx : addDays R k with
+  | none => simp [hx] at h
+  | some x =>
+    have sp := addDays_spec R hR.1 k x hx
+    simp only [hx, Res.ok.injEq] at h
+    obtain ⟨h1, h2, h3, h4, h5⟩ := h
+    refine ⟨x.date, sp.1, sp.2.1, h1.symm, ?_, ?_, by rw [← h4, ← h2], by rw [← h5, ← h3], ?_, ?_⟩
+    · rw [← h2]; rcases rows.2 with e | e <;> subst e <;> simp [todBegin, withTime, sp.1]
+    · rw [← h3]; rcases rows.2 with e | e <;> subst e <;> simp [todEnd, withTime, sp.1]
+    · rcases rows.2 with e | e <;> subst e <;> decide
+    · rcases rows.2 with e | e <;> subst e <;> decide
+
+/-- an exact match of `SpecificTimeOfDayRegex` that is not a word of the table (这个 下午: prefix, white space, part of day)
+raises (`format_date(date) + None`) — for every reference -/
+theorem zh_specific_unknown_raises (R : DateTime) (w : Str) (h : nightRange w = none) : specificNight R w = .raises := by
+  unfold specificNight; rw [h]
+
+/-- the five part-of-day rows of `parse_specific_time_of_day`: 上午 08–12, 中午 11–13, 下午 12–16, 晚上 16–20, 深夜 20–23:59:59 — begin
+< end, inside one day -/
+theorem zh_pod_rows : ∀ p : Pod,
+    p.range.beginHour < 24 ∧ p.range.endHour < 24 ∧ p.range.endMin < 60 ∧
+    p.range.beginHour * 3600 < p.range.endHour * 3600 + p.range.endMin * 60 + p.range.endMin ∧
+    p.range.endHour * 3600 + p.range.endMin * 60 + p.range.endMin < 86400 := by
+  intro p; cases p <;> decide
+
+/-- **a date followed by a part of day (明天下午, 5月1日晚上), for every date the date parser returns**: each range lies on its
+candidate's day, begin < end on that day; TIMEX = the date's TIMEX + the code. -/
+theorem zh_date_time_of_day_ok (fd pd : DateTime) (hf : fd.date.valid = true) (hp : pd.date.valid = true) (tx : Str) (p : Pod) :
+    dateTimeOfDay fd pd tx p =
+      .ok (tx ++ p.range.timeStr)
+        ⟨fd.date, p.range.beginHour * 3600⟩ ⟨fd.date, p.range.endHour * 3600 + p.range.endMin * 60 + p.range.endMin⟩
+        ⟨pd.date, p.range.beginHour * 3600⟩ ⟨pd.date, p.range.endHour * 3600 + p.range.endMin * 60 + p.range.endMin⟩ := by
+  have rows := zh_pod_rows p
+  unfold dateTimeOfDay todBegin todEnd
+  simp only []
+  rw [withTime_ok fd.date hf _ _ _ rows.1 (by omega), withTime_ok fd.date hf _ _ _ rows.2.1 rows.2.2.1,
+    withTime_ok pd.date hp _ _ _ rows.1 (by omega), withTime_ok pd.date hp _ _ _ rows.2.1 rows.2.2.1]
+  simp
+
+/-- which row a word takes (first pattern that occurs in the text). 傍晚 is read as AFTERNOON here (12–16: `DateTimePeriodAFRegex`
+lists it) but as EVENING (16–20) by the time-period parser's term lists: 傍晚 alone and 明天傍晚 resolve to different hours. -/
+theorem zh_pod_words :
+    (∀ w ∈ [[20940, 26216], [28165, 26216], [26089, 19978], [26089, 38388], [26089], [19978, 21320]], podOfText w = some .mo) ∧
+    podOfText [20013, 21320] = some .mi ∧
+    (∀ w ∈ [[19979, 21320], [21320, 21518], [20621, 26202]], podOfText w = some .af) ∧
+    (∀ w ∈ [[26202, 19978], [22812, 37324], [22812, 26202], [26202]], podOfText w = some .ev) ∧
+    (∀ w ∈ [[21322, 22812], [22812, 38388], [28145, 22812]], podOfText w = some .ni) ∧
+    podOfText [20621, 26202] = some .af ∧ todOfText [20621, 26202] = some .evening := by decide
+
+/-! ## 前N小时 / 未来N分钟 (`__parse_common_duration_with_unit`) -/
+
+theorem unit_letter_seconds (u : TUnit) :
+    (if hmsLetter u = 72 then some 3600 else if hmsLetter u = 77 then some 60 else if hmsLetter u = 83 then some 1 else none) =
+      some u.seconds.toNat ∧ (u.seconds.toNat : Int) = u.seconds := by
+  cases u <;> decide
+
+/-- **前N小时 / 过去N分钟 / 上N秒, for every reference R and every N**: the range is `[R − N·unit, R]`, both ends proper datetimes,
+future = past, and the TIMEX `(begin,end,PT<N><U>)` is consistent with the values. -/
+theorem zh_past_n_units (R : DateTime) (hR : proper R) (u : TUnit) (n : Nat) (t : Str) (fb fe pb pe : DateTime)
+    (h : commonDurationHMS R (some u) (natStr n) n true false = .ok t fb fe pb pe) :
+    fe = R ∧ proper fb ∧ val R - val fb = (n : Int) * u.seconds ∧ pb = fb ∧ pe = fe ∧
+    tripleOK t (some (fmtDT fb)) (some (fmtDT fe)) = true := by
+  have ul := unit_letter_seconds u
+  cases hb : addSeconds R (-((n : Int) * u.seconds)) with
+  | none =>
+    have : commonDurationHMS R (some u) (natStr n) n true false = .raises := by
+      unfold commonDurationHMS
+      simp only [Bool.not_false, Bool.not_true, Bool.false_and, Bool.and_false, Bool.false_eq_true, if_false, if_true, hb]
+    rw [this] at h; simp at h
+  | some b =>
+    have eq : commonDurationHMS R (some u) (natStr n) n true false =
+        .ok (triple (luisPoint b) (luisPoint R) ([80, 84] ++ natStr n ++ [hmsLetter u])) b R b R := by
+      unfold commonDurationHMS
+      simp only [Bool.not_false, Bool.not_true, Bool.false_and, Bool.and_false, Bool.false_eq_true, if_false, if_true, hb]
+    have sp := addSeconds_spec R hR.1 _ b hb
+    have hp : proper b := ⟨sp.1, sp.2.1⟩
+    have hv : val R - val b = ((n * u.seconds.toNat : Nat) : Int) := by
+      unfold val; rw [Int.natCast_mul, ul.2]; omega
+    have key := points_triple b R hp hR n u.seconds.toNat (hmsLetter u) ul.1
+    rw [decide_eq_true hv] at key
+    rw [eq, Res.ok.injEq] at h
+    obtain ⟨h1, h2, h3, h4, h5⟩ := h
+    subst h1 h2 h3 h4 h5
+    exact ⟨rfl, hp, by rw [hv, Int.natCast_mul, ul.2], rfl, rfl, key⟩
+
+/-- **未来N小时 / 之后N分钟 / 下N秒**: `[R, R + N·unit]`, consistent triple. -/
+theorem zh_future_n_units (R : DateTime) (hR : proper R) (u : TUnit) (n : Nat) (t : Str) (fb fe pb pe : DateTime)
+    (h : commonDurationHMS R (some u) (natStr n) n false true = .ok t fb fe pb pe) :
+    fb = R ∧ proper fe ∧ val fe - val R = (n : Int) * u.seconds ∧ pb = fb ∧ pe = fe ∧
+    tripleOK t (some (fmtDT fb)) (some (fmtDT fe)) = true := by
+  have ul := unit_letter_seconds u
+  cases he : addSeconds R ((n : Int) * u.seconds) with
+  | none =>
+    have : commonDurationHMS R (some u) (natStr n) n false true = .raises := by
+      unfold commonDurationHMS
+      simp only [Bool.not_false, Bool.not_true, Bool.false_and, Bool.and_false, Bool.false_eq_true, if_false, if_true, he]
+    rw [this] at h; simp at h
+  | some e =>
+    have eq : commonDurationHMS R (some u) (natStr n) n false true =
+        .ok (triple (luisPoint R) (luisPoint e) ([80, 84] ++ natStr n ++ [hmsLetter u])) R e R e := by
+      unfold commonDurationHMS
+      simp only [Bool.not_false, Bool.not_true, Bool.false_and, Bool.and_false, Bool.false_eq_true, if_false, if_true, he]
+    have sp := addSeconds_spec R hR.1 _ e he
+    have hp : proper e := ⟨sp.1, sp.2.1⟩
+    have hv : val e - val R = ((n * u.seconds.toNat : Nat) : Int) := by
+      unfold val; rw [Int.natCast_mul, ul.2]; omega
+    have key := points_triple R e hR hp n u.seconds.toNat (hmsLetter u) ul.1
+    rw [decide_eq_true hv] at key
+    rw [eq, Res.ok.injEq] at h
+    obtain ⟨h1, h2, h3, h4, h5⟩ := h
+    subst h1 h2 h3 h4 h5
+    exact ⟨rfl, hp, by rw [hv, Int.natCast_mul, ul.2], rfl, rfl, key⟩
+
+/-- neither 前 / 过去 … nor 未来 / 之后 … in front of the number, a unit outside hour / minute / second: no result -/
+theorem zh_n_units_guards (R : DateTime) (num : Str) (n : Nat) (hp hf : Bool) (u : TUnit) :
+    commonDurationHMS R none num n hp hf = .noResult ∧ commonDurationHMS R (some u) num n false false = .noResult := by
+  constructor <;> simp [commonDurationHMS]
+
+example : commonDurationHMS ⟨⟨2020, 1, 31⟩, 52200⟩ (some .H) (Py.ofString "3") 3 true false =
+    .ok (Py.ofString "(2020-01-31T11:30:00,2020-01-31T14:30:00,PT3H)") ⟨⟨2020, 1, 31⟩, 41400⟩ ⟨⟨2020, 1, 31⟩, 52200⟩
+      ⟨⟨2020, 1, 31⟩, 41400⟩ ⟨⟨2020, 1, 31⟩, 52200⟩ := by decide +kernel
+example : commonDurationHMS ⟨⟨2020, 12, 31⟩, 86399⟩ (some .M) (Py.ofString "20") 20 false true =
+    .ok (Py.ofString "(2020-12-31T23:59:59,2021-01-01T00:19:59,PT20M)") ⟨⟨2020, 12, 31⟩, 86399⟩ ⟨⟨2021, 1, 1⟩, 1199⟩
+      ⟨⟨2020, 12, 31⟩, 86399⟩ ⟨⟨2021, 1, 1⟩, 1199⟩ := by decide +kernel
+example : commonDurationHMS ⟨⟨9999, 12, 31⟩, 86399⟩ (some .S) (Py.ofString "1") 1 false true = .raises := by decide +kernel
+
 end RTV.ZhTP
